@@ -80,6 +80,11 @@ def solve_address(ctx, rng, desc, kind, w, prep_args, targets=None):
     return d2
 
 
+def observe_diff(a, b):
+    from vf import observe
+    return observe.diff(a, b)
+
+
 def run_rows(pid, spec, prefixes, ctxs=CTXS_DEFAULT, regs_fn=None, prep_kw=None, after=None, keyfn=None, itpos_fn=None,
              solve_addr=0.0, fixed_fn=None, product_cap=None, pin_sp=False, host_only=False, solve_targets=None):
     from vf import lockstep, scen, machine as M
@@ -214,6 +219,8 @@ def run_rows(pid, spec, prefixes, ctxs=CTXS_DEFAULT, regs_fn=None, prep_kw=None,
             # architectural outcome or the documented not-implemented error leaves emulate_cycle()
             verdict, info, diffs, pre, post, ref = ls.run(ctx, desc, 'it-' + itpos)
             ls.bump('row_steps_' + str(info.get('emu')))
+            if desc.get('stage2') and (post['cpsr'] & 0x1F) == 0x1A and 'hdfar' in observe_diff(pre, post):
+                ls.bump('row_steps_stage2_abort_taken_to_hyp')
             if post != pre:
                 ls.res['nontrivial'].add('%s|%s|%s' % (row.name, itpos, ctx.cfgname))
             if info.get('emu') == 'host':
